@@ -85,6 +85,11 @@ def check(ctx: Ctx) -> str:
     m = repo.module("nativetypes")
     ctx.check("NativeEnvironment.template_class = NativeTemplate" in m.src and ast.unparse(nt.assigns.get("environment_class", ast.Constant(None))) == "NativeEnvironment", "env:template", "nativetypes:<module>", "template class wiring", "NativeEnvironment.template_class and NativeTemplate.environment_class must point at each other", "src/jinja2/nativetypes.py")
 
+    # a constant output child is turned into text at compile time only if its repr() is a
+    # literal: otherwise the native value degrades to a string (rule shared with C08 / C01)
+    from .c08 import r3_safe_repr
+
+    r3_safe_repr(ctx, "R5")
     ctx.rule("R4", "who-may-use the plain string join: rendered pieces that become a *value* (block references `self.x()` / `super()`, generated code's `concat`) are joined with environment.concat, which is the native concat in a native environment; the bare utils.concat is used only at the reviewed text-only sites")
     allowed = {
         ("runtime", "markup_join"): "string concatenation operator `~` (always text)",
